@@ -608,6 +608,34 @@ def validate(tier, workdir, seed):
         runs += 1
         if m != real or bool(s.isnumeric()) != p.isnumeric() or bool(s.isdigit()) != p.isdigit() or bool(s.isdecimal()) != p.isdecimal():
             errs.append("string class model disagrees with the interpreter on %r" % p)
+    # the regular-expression engine over class-strings against the interpreter's re, on every string of one
+    # representative per class (plus two digits) up to length 3 (quick: 2)
+    import itertools
+    import re as _re
+    from symx import rex
+    from symx.core import Unsupported as _Uns
+    alpha = [rep[k] for k in range(9)] + ["7", bdig[3]]
+    pats = [r"^\s*([+-]?[0-9]+)\s*", r"[0-9]+$", r"\s*(\d+)\s*\Z", r"(?:1[4-9]|2[0-5])", r"([0-9]+)(_[0-9]+)*", r"[^0-9\s]+?(\d)"]
+    for pat in pats:
+        for n in (1, 2) + ((3,) if tier != "quick" else ()):
+            for tup in itertools.product(alpha, repeat=n):
+                txt = "".join(tup)
+                chars = []
+                for ch in txt:
+                    k = strs.classify(ch)
+                    import unicodedata
+                    chars.append(strs.SymChar(k, unicodedata.decimal(ch, 0) if k in (strs.A, strs.B) else 0))
+                try:
+                    m = rex.Pattern(pat).match(strs.SymStr(chars, "s"))
+                    got = None if m is None else (m.span(), tuple(m.span(i) for i in range(1, m._n + 1)))
+                except _Uns:
+                    continue
+                rm = _re.compile(pat).match(txt)
+                want = None if rm is None else (rm.span(), tuple(rm.span(i) for i in range(1, rm.re.groups + 1)))
+                runs += 1
+                if got != want:
+                    errs.append("regex engine disagrees with re on %r / %r: %r vs %r" % (pat, txt, got, want))
+                    break
     return runs, errs
 
 
